@@ -578,6 +578,16 @@ func c3StrClass(s string) string {
 
 var c3Cases = []string{"d", "u", "c", "n"}
 
+// c3BaseClass groups the bases by the form of their radix prefix: #b, #o, #x, the trailing point
+// of base 10, #NNr for the others.
+func c3BaseClass(b int) string {
+	switch b {
+	case 2, 8, 10, 16:
+		return fmt.Sprint(b)
+	}
+	return "other"
+}
+
 func c3DefaultCfg() c3Cfg {
 	return c3Cfg{base: 10, radix: false, cs: "d", pretty: false, margin: 80, readably: true, array: true}
 }
@@ -673,14 +683,14 @@ func (g *c3Gen) sweeps() {
 			cf := def
 			cf.base, cf.radix = base, radix
 			for _, n := range ints {
-				g.add(c3Int(n), cf, fmt.Sprintf("kind=integer var=base:%d,radix:%v", base, radix))
+				g.add(c3Int(n), cf, fmt.Sprintf("kind=integer var=base:%s,radix:%v", c3BaseClass(base), radix))
 			}
 			for _, q := range [][2]int64{{1, 2}, {-1, 3}, {7, 36}, {-35, 37}, {1 << 40, 3}, {5, 1 << 40}} {
-				g.add(c3Ratio(big.NewInt(q[0]), big.NewInt(q[1])), cf, fmt.Sprintf("kind=ratio var=base:%d,radix:%v", base, radix))
+				g.add(c3Ratio(big.NewInt(q[0]), big.NewInt(q[1])), cf, fmt.Sprintf("kind=ratio var=base:%s,radix:%v", c3BaseClass(base), radix))
 			}
 			big1 := new(big.Int).Lsh(big.NewInt(1), 70)
-			g.add(c3Ratio(new(big.Int).Add(big1, big.NewInt(1)), big1), cf, fmt.Sprintf("kind=ratio var=base:%d,radix:%v", base, radix))
-			g.add(c3Ratio(big.NewInt(-3), new(big.Int).Add(big1, big.NewInt(1))), cf, fmt.Sprintf("kind=ratio var=base:%d,radix:%v", base, radix))
+			g.add(c3Ratio(new(big.Int).Add(big1, big.NewInt(1)), big1), cf, fmt.Sprintf("kind=ratio var=base:%s,radix:%v", c3BaseClass(base), radix))
+			g.add(c3Ratio(big.NewInt(-3), new(big.Int).Add(big1, big.NewInt(1))), cf, fmt.Sprintf("kind=ratio var=base:%s,radix:%v", c3BaseClass(base), radix))
 		}
 	}
 	// S3 strings: one special character in the middle / at the ends; readably on and off
@@ -746,7 +756,7 @@ func (g *c3Gen) sweeps() {
 		cf := def
 		cf.base, cf.radix = base, true
 		for _, name := range []string{"10", "abc", "zz", "1/2", "ff"} {
-			g.add(c3Sym(name), cf, fmt.Sprintf("kind=symbol class=%s var=base:%d,radix:true", c3SymClass(name), base))
+			g.add(c3Sym(name), cf, fmt.Sprintf("kind=symbol class=%s var=base:%s,radix:true", c3SymClass(name), c3BaseClass(base)))
 		}
 	}
 	// S6 containers: shapes × pretty × every margin
@@ -786,7 +796,7 @@ func (g *c3Gen) sweeps() {
 			for _, array := range []bool{true, false} {
 				cf := def
 				cf.base, cf.radix, cf.array = base, radix, array
-				v := fmt.Sprintf("var=base:%d,radix:%v,array:%v", base, radix, array)
+				v := fmt.Sprintf("var=base:%s,radix:%v,array:%v", c3BaseClass(base), radix, array)
 				g.add(arr2, cf, "kind=array rank=2 "+v)
 				g.add(arr3, cf, "kind=array rank=3 "+v)
 				g.add(arrL, cf, "kind=array rank=2 elements=containers "+v)
@@ -1255,6 +1265,9 @@ func c03Run(c *lib.Ctx, cases []c3Case, nSweep int) {
 	}
 
 	agree, inDomain, kText, kRead, prettySame, prettyDiff := 0, 0, 0, 0, 0, 0
+	shrinkBudget := 40
+	var pendingReports []c3Pending
+	kindSeen := map[string]int{}
 	for i, cs := range cases {
 		res := results[i]
 		c.Ev.Case(cs.key(), cs.nontrivial())
@@ -1272,16 +1285,28 @@ func c03Run(c *lib.Ctx, cases []c3Case, nSweep int) {
 			rc := cs
 			cell := cs.cell
 			if !cs.sweep {
-				// composite: shrink to a minimal failing sub-object; never excused
-				rc = c3Shrink(cs, func(s c3Case) bool { return c3WFails(s) != "" || c3KFails(c, s) != "" })
-				cell = "composite " + c3CellOfLeaf(rc.obj)
+				// composite: shrink to a minimal failing sub-object (a bounded number of times per
+				// run: every shrink step runs the implementation, K steps also the model); never excused
+				cell = "composite (not shrunk) kind=" + cs.obj.kind
+				if shrinkBudget > 0 {
+					shrinkBudget--
+					if strings.HasPrefix(aspect, "flat-text") || strings.HasPrefix(aspect, "model-") {
+						rc = c3Shrink(cs, func(s c3Case) bool { return c3KFails(c, s) != "" })
+					} else {
+						rc = c3Shrink(cs, func(s c3Case) bool { return c3WFails(s) != "" })
+					}
+					cell = "composite " + c3CellOfLeaf(rc.obj)
+				}
 			}
 			rp := rc.replay()
 			rp["input"] = rc.obj.term() + "  under  " + rc.cf.String()
 			for k, v := range extra {
 				rp[k] = v
 			}
-			c.Report(c3Signature(cell, aspect), cs.sweep, rp)
+			sig := c3Signature(cell, aspect)
+			kind := strings.Join(strings.Fields(strings.TrimPrefix(sig, "composite "))[:1], " ")
+			pendingReports = append(pendingReports, c3Pending{sig, cs.sweep, rp, kind, kindSeen[kind]})
+			kindSeen[kind]++
 		}
 		if cs.inDomain() {
 			inDomain++
@@ -1325,6 +1350,12 @@ func c03Run(c *lib.Ctx, cases []c3Case, nSweep int) {
 			agree++
 		}
 	}
+	// report one disagreement of every kind before the second of any (only the first 25 get a
+	// replay file and a verdict line)
+	sort.SliceStable(pendingReports, func(i, j int) bool { return pendingReports[i].rank < pendingReports[j].rank })
+	for _, pr := range pendingReports {
+		c.Report(pr.sig, pr.sweep, pr.rp)
+	}
 	c.Ev.Coverage["traces_validated_against_impl"] = kText
 	c.Ev.Coverage["agreements"] = agree
 	c.Ev.Coverage["sweep_cases"] = nSweep
@@ -1334,6 +1365,14 @@ func c03Run(c *lib.Ctx, cases []c3Case, nSweep int) {
 	c.Ev.Coverage["model_pretty_layout_identical"] = prettySame
 	c.Ev.Coverage["model_pretty_layout_different"] = prettyDiff
 	c.Ev.Coverage["rule"] = "case = (object, printer configuration); sweeps = boundary integers/ratios x base 2..36 x radix, one-character strings/characters/symbols over all ASCII and sampled Unicode, number-like / quoted symbol names x case, container shapes x pretty x margins, arrays/vectors x base x radix x array, floats of each format x readably (exhaustive, seed independent) + random nested objects x random configuration; every case is printed flat and pretty and read back (W), float-free cases are also compared with the model text and the model reader (K); non-trivial = has a container level or a boundary leaf (|n| >= 2^31, ratio, float, char outside [a-z0-9], symbol needing quoting, string with quote/backslash/non-printing); distinct by (configuration, object term)"
+}
+
+type c3Pending struct {
+	sig   string
+	sweep bool
+	rp    map[string]any
+	kind  string
+	rank  int
 }
 
 // c3InModel: the object is in the model's universe (no floats, no empty-list object, no symbol
